@@ -8,6 +8,11 @@ ALL = ["C%02d" % i for i in range(1, 21)]
 
 # pid -> (category, level text, level note, technique, design_ref)
 CHECKS = {
+ "C11": ("proof",
+         "45 theorems over Model/Functions.v (collectFns, evalFunctions) and the audition model: first/last/top/bottom N folds equal firstn/lastn/stable sorted prefixes of the non-nil values for every N and sequence (never a panic; an error exactly on strings/arrays), collected arrays never contain nil, a computes variable holds the latest non-nil value, assignments are visible to later members of the same round and not to earlier ones, values persist across activation periods, end-to-end statements over run_audition, and sum/avg/med/min/max/abs/floor/ceil/round equal their mathematical definitions over the non-nil elements. The letter 'over the non-nil elements' is refuted for count/first/last/sorted with a witness (known finding) and proved for nil-free arrays. Tie: real collectFns/evalFunctions/expression evaluator/processAssignments on generated inputs and chains of clauses through the real audition, compared in Coq with the models and with independent oracles; a fixed corpus replays the two array-aliasing defects repaired in eeee4b8/7774142.",
+         "Trusted: Coq kernel+VM, harness+hook. float64 as exact rationals (avg/med compared within 1e-9); govaluate modelled for the generated subset; sort.Sort modelled by a stable insertion sort (generator avoids bool/number ties in one sorted() argument list); log/sqrt/ndiff not modelled.",
+         "Rocq/Coq proof (induction over value sequences and rounds) + differential correspondence with independent oracles",
+         "DESIGN.md section 6, C11"),
  "C04": ("proof",
          "Theorems over a timed model of the prompter (Model/Prompt.v: acts, scene groups with waitUntil, concurrent lines, sequential steps; arbitrary non-negative latencies at every action, scene start, barrier and act start): acts sequential, groups behind barriers, line order, never ahead of the tempo, recorded interval brackets the command's own interval — for all scripts, tempos, durations and latencies, by induction. Tie: generated plays through the real binary whose actions write a wall-clock ledger; the ledger, csv rows and exit status are checked in Coq to be a run of the timed model for SOME latencies >= 0 (inequalities that added delay can only help, so load cannot raise an alarm) and against plain-meaning oracles.",
          "Trusted: Coq kernel+VM, harness, real parser supplying the compiled play (cmd.VerifParse). Observed, not proved: wg.Wait, time.After, exec, wall clock. Two checker-completeness lemmas are exercised per case instead of proved.",
@@ -70,7 +75,12 @@ CHECKS = {
          "DESIGN.md section 6, C18"),
 }
 
-HOOK_COMMITS = []
+import subprocess
+try:
+    HOOK_COMMITS = subprocess.check_output(["git", "-C", "/repo", "log", "--reverse", "--format=%h %s", "--grep=^verif hooks"],
+                                           text=True).strip().split("\n")
+except Exception:
+    HOOK_COMMITS = []
 
 
 def main():
